@@ -156,7 +156,7 @@ CHECKS = {
             "C05_*_slots / C05_compound_size_mod. Reference encodings (node model, component rg): C05_ref_slot_encoding (a reference slot "
             "holds the little-endian int64 `target - slot`, a union reference the member index in the next word; null = -2^63, member "
             "index -1), C05_node_slots (fields on 8-byte slots, size a whole number of slots), C05_new_node_bytes; that these bytes "
-            "DEcode to the referent is C08_alias / C08_union_member / C08_null.",
+            "DEcode to the referent is C08_alias / C08_union_member / C08_null. "
             "Where reference slots sit inside dynamic structs and arrays: `toLayR` maps EVERY type to a layout-model type (a reference "
             "slot = an opaque 8-byte word, a union reference = 16 bytes), so all layout theorems apply; C05_sizes_with_references "
             "(class-level sizes agree for every type), C05_toLayR_extends_toLay; on every reference-bearing case the proof model's "
